@@ -221,11 +221,18 @@ def run_case(ctx, rng, n_case):
     # unknown type
     ctx.hit('UnknownType.rejected')
     m.define_class('Odd', [('x', 'INTEGER'), ('y', rng.choice(('FOO', 'int', 'uuid', 'inst_ref<Odd>')))])
-    try:
-        m.new('Odd')
-        raise Mismatch('unknown-type/accepted', 'creating an instance with an attribute of unknown type succeeded')
-    except xtuml.MetaException:
-        pass
+    # ... on every attempt, with and without arguments, and without leaving instances behind
+    for attempt in range(rng.randint(2, 4)):
+        kw = rng.choice(({}, {}, {'x': 3}, {'y': 5}, {'x': 1, 'y': 2}))
+        try:
+            m.new('Odd', **kw) if kw.get('y') is None or 'x' in kw else m.new('Odd', 7, **kw)
+            accepted = True
+        except xtuml.MetaException:
+            accepted = False
+        # giving the odd attribute a value explicitly needs no default: only defaulting must be rejected
+        if accepted and 'y' not in kw:
+            raise Mismatch('unknown-type/accepted', 'attempt number %d to create an instance whose attribute of '
+                           'unknown type needs a default succeeded (arguments %r)' % (attempt + 1, kw))
 
 
 def value(rng, ty):
